@@ -22,9 +22,9 @@ var r *mon.Run
 // fv is one decoded (or expected) field rendered to a comparable string.
 type fv struct{ N, V string }
 
-func fu(name string, v uint64) fv  { return fv{name, strconv.FormatUint(v, 10)} }
-func fb(name string, b []byte) fv  { return fv{name, hex.EncodeToString(b)} } // nil == empty
-func fs(name string, s string) fv  { return fv{name, hex.EncodeToString([]byte(s))} }
+func fu(name string, v uint64) fv { return fv{name, strconv.FormatUint(v, 10)} }
+func fb(name string, b []byte) fv { return fv{name, hex.EncodeToString(b)} } // nil == empty
+func fs(name string, s string) fv { return fv{name, hex.EncodeToString([]byte(s))} }
 
 // spec describes one wire type to the generic judge.
 type spec struct {
